@@ -52,12 +52,29 @@ fn has_cached_under_replace(t: &T) -> bool { t.has(&|x| matches!(x, T::Replace(i
 /// K5: a CachedSource beneath a ReplaceSource replays coarser chunks than its first fill; the failure
 /// is this finding exactly when it disappears once those CachedSource wrappers are removed.
 pub(crate) fn k5(c: &Case, f: &Finding, oracle: &(dyn Fn(&Case, &[Out]) -> Vec<Finding> + std::panic::RefUnwindSafe)) -> Option<String> {
+  k5x(c, f, oracle, &|_, _, _| false)
+}
+/// the same with another listed finding taken into account: what remains of the failure once the CachedSource wrappers are removed may
+/// itself be that other finding (e.g. K2 for C13: the wrapper variant refines columns) — then the cached case shows K5 on top of it
+pub(crate) fn k5x(c: &Case, f: &Finding, oracle: &(dyn Fn(&Case, &[Out]) -> Vec<Finding> + std::panic::RefUnwindSafe),
+                  other: &(dyn Fn(&Case, &Finding, &[Out]) -> bool + std::panic::RefUnwindSafe)) -> Option<String> {
   if !c.trees.iter().any(has_cached_under_replace) { return None }
   let c2 = Case { trees: c.trees.iter().map(|t| uncache_under_replace(t, false)).collect(), script: c.script.clone(), note: c.note.clone() };
   // the same failure = same clause and, where the detail names one of several variants, the same variant (another variant may fail for another, separately listed reason)
   let key = |x: &Finding| -> String { if x.detail.starts_with("variant ") { format!("{} {}", x.clause, x.detail.split(' ').take(2).collect::<Vec<_>>().join(" ")) } else { x.clause.clone() } };
-  let still = catch(|| oracle(&c2, &run_case_impl(&c2)).iter().any(|x| key(x) == key(f))).unwrap_or(true);
+  let still = catch(|| { let o2 = run_case_impl(&c2); oracle(&c2, &o2).iter().any(|x| key(x) == key(f) && !other(&c2, x, &o2)) }).unwrap_or(true);
   if still { None } else { Some("K5".into()) }
+}
+/// K2: a ReplaceSource with only empty replacements refines columns at its split points
+fn k2(c: &Case, f: &Finding, outs: &[Out]) -> bool {
+  if c.note.contains("wrappers") && f.clause == "attribution" && f.detail.starts_with("variant 6 ") {
+    let get = |ti: usize, op: &Op| c.script.iter().zip(outs).find(|((i, o), _)| *i == ti && o == op).map(|(_, o)| o);
+    if let (Some(Out::Text(src)), Some(Out::Map(m)), Some(Out::Map(n))) = (get(0, &Op::Src), get(0, &Op::Map(true)), get(6, &Op::Map(true))) {
+      let (a, b) = (per_pos_attr(src, m), per_pos_attr(src, n));
+      return (0..src.len()).all(|i| a[i] == b[i] || match (&a[i], &b[i]) { (Some(x), Some(y)) => x.file == y.file && x.line == y.line && x.name == y.name && y.col > x.col, _ => false });
+    }
+  }
+  false
 }
 fn has_composite(c: &Case) -> bool { c.trees.iter().any(|t| t.has(&|x| matches!(x, T::Replace(..) | T::Concat(_) | T::Cached(..)))) }
 
@@ -428,16 +445,9 @@ pub fn c13() -> TreeProp {
     nontrivial: Box::new(|_, outs| outs.iter().any(|o| matches!(o, Out::Map(Some(_))))),
     stats: Box::new(kind_stats),
     known: Box::new(|c, f, outs| {
-      // K2: a ReplaceSource with only empty replacements refines columns at its split points
-      if c.note.contains("wrappers") && f.clause == "attribution" && f.detail.starts_with("variant 6 ") {
-        let get = |ti: usize, op: &Op| c.script.iter().zip(outs).find(|((i, o), _)| *i == ti && o == op).map(|(_, o)| o);
-        if let (Some(Out::Text(src)), Some(Out::Map(m)), Some(Out::Map(n))) = (get(0, &Op::Src), get(0, &Op::Map(true)), get(6, &Op::Map(true))) {
-          let (a, b) = (per_pos_attr(src, m), per_pos_attr(src, n));
-          let refined = (0..src.len()).all(|i| a[i] == b[i] || match (&a[i], &b[i]) { (Some(x), Some(y)) => x.file == y.file && x.line == y.line && x.name == y.name && y.col > x.col, _ => false });
-          if refined { return Some("K2".into()) }
-        }
-      }
-      k5(c, f, &c13_oracle)
+      if k2(c, f, outs) { return Some("K2".into()) }
+      // K5, possibly on top of K2: without the CachedSource wrappers the failure is gone, or is K2
+      k5x(c, f, &c13_oracle, &|c2, f2, o2| k2(c2, f2, o2))
     }),
     corpus: vec![],
   }
